@@ -54,9 +54,13 @@ def merge_cases(draw, max_chroms=3, max_bins=5):
         vals = draw(st.lists(st.tuples(cnt, xval), min_size=len(sel), max_size=len(sel)))
         inputs.append([[c[0], c[1], v[0], v[1]] for c, v in zip(sel, vals)])
     # a wider output type requested for the merge: 32-bit inputs whose per-pixel sums only fit the requested 64-bit column
-    out_dtype = draw(st.sampled_from([None, None, None, "int64"])) if all(d == "int32" for d in count_dtypes) else None
+    if draw(st.integers(0, 5)) == 0:
+        count_dtypes = ["int32"] * k
+        inputs = [[[r[0], r[1], (r[2] if isinstance(r[2], int) else 7) % 1000 + 1, r[3]] for r in rows] for rows in inputs]
+    out_dtype = draw(st.sampled_from([None, "int64", "int64"])) if all(d == "int32" for d in count_dtypes) else None
     if out_dtype:
-        inputs = [[[r[0], r[1], r[2] + (2**31 - 1001 if (r[0] + r[1] + t) % 2 == 0 else 0), r[3]] for r in rows] for t, rows in enumerate(inputs)]
+        # the same pixels carry a value near the 32-bit limit in every input: any pixel shared by two inputs needs the wider column
+        inputs = [[[r[0], r[1], r[2] + (2**31 - 1001 if (r[0] + r[1]) % 2 == 0 else 0), r[3]] for r in rows] for rows in inputs]
     cols = draw(st.sampled_from([None, None, ["count"], ["count", "x"], ["x"], ["count", "x"], ["x", "count"]]))
     agg_count = draw(st.sampled_from(["sum", "sum", "min", "max", "count", "range"]))
     agg_x = draw(st.sampled_from(["sum", "sum", "max"]))
